@@ -174,7 +174,16 @@ fn scenario(pr: &Params) -> Verdict {
 /// Scale family (not exhaustive in the counts): `n_topics` topics are subscribed and every even one unsubscribed
 /// again; half of the `n_peers` peers are attached before the calls, the others join only after every call has
 /// returned. Every peer's view must be exactly the odd topics.
-fn scale_scenario(n_topics: usize, n_peers: usize) -> Verdict {
+/// `topic_len`: 0 = short topics `tNNNN`; otherwise every topic is padded to exactly that many bytes (253..256 straddle
+/// the one-byte / eight-byte size form of the subscription frame, whose body is one byte longer than the topic)
+fn scale_scenario(n_topics: usize, n_peers: usize, topic_len: usize) -> Verdict {
+    let topic = move |i: usize| -> String {
+        let mut t = format!("t{:04}", i);
+        while t.len() < topic_len {
+            t.push((b'a' + (t.len() % 26) as u8) as char);
+        }
+        t
+    };
     world::reset(world::WorldCfg { nested_env: false, yields: true, select: false, policy: 0, coop: false });
     let conns: Vec<e3::RawConn> = (0..n_peers).map(|p| e3::raw_conn(&format!("P{}", p))).collect();
     for (p, c) in conns.iter().enumerate() {
@@ -199,11 +208,11 @@ fn scale_scenario(n_topics: usize, n_peers: usize) -> Verdict {
             world::wait_cond(&format!("attached{}", p)).await;
         }
         for i in 0..n_topics {
-            let _ = sock.subscribe(&format!("t{:04}", i)).await;
+            let _ = sock.subscribe(&topic(i)).await;
             world::yield_now().await;
         }
         for i in (0..n_topics).step_by(2) {
-            let _ = sock.unsubscribe(&format!("t{:04}", i)).await;
+            let _ = sock.unsubscribe(&topic(i)).await;
             world::yield_now().await;
         }
         world::set_cond("api-done");
@@ -213,7 +222,7 @@ fn scale_scenario(n_topics: usize, n_peers: usize) -> Verdict {
     let end = world::run(e3::HORIZON * (10 + (n_topics * n_peers) as u64 / 20));
     let mut v = Verdict::default();
     v.truncated = end != world::RunEnd::Quiescent;
-    let what = format!("SUB socket, {} topics subscribed and every even one unsubscribed again, {} peers (half attached before the calls, half joining afterwards)", n_topics, n_peers);
+    let what = format!("SUB socket, {} topics{} subscribed and every even one unsubscribed again, {} peers (half attached before the calls, half joining afterwards)", n_topics, if topic_len > 0 { format!(" of {} bytes each", topic_len) } else { String::new() }, n_peers);
     for p in world::panics() {
         v.violate("panic", format!("{}: {}", what, p));
     }
@@ -221,7 +230,7 @@ fn scale_scenario(n_topics: usize, n_peers: usize) -> Verdict {
         v.violate("spin", format!("{}: no quiescence", what));
     }
     if world::panics().is_empty() && !v.truncated {
-        let want: BTreeMap<Vec<u8>, i32> = (0..n_topics).filter(|i| i % 2 == 1).map(|i| (format!("t{:04}", i).into_bytes(), 1)).collect();
+        let want: BTreeMap<Vec<u8>, i32> = (0..n_topics).filter(|i| i % 2 == 1).map(|i| (topic(i).into_bytes(), 1)).collect();
         for (p, c) in conns.iter().enumerate() {
             let view: BTreeMap<Vec<u8>, i32> = fold(&c.tap_messages()).into_iter().filter(|(_, n)| *n > 0).collect();
             if view != want && v.violations.is_empty() {
@@ -231,9 +240,112 @@ fn scale_scenario(n_topics: usize, n_peers: usize) -> Verdict {
             }
         }
     }
-    v.outcome_hash = rc::fnv(format!("{}/{}", n_topics, n_peers).as_bytes());
+    v.outcome_hash = rc::fnv(format!("{}/{}/{}", n_topics, n_peers, topic_len).as_bytes());
     e3::finish(v)
 }
+
+/// Deep sequential histories (no scheduling involved: one peer attached before the calls, one joining after the last
+/// one): EVERY history of subscribe/unsubscribe calls of length <= `max_len` over `DEEP_TOPICS` that starts with
+/// `prefix` and never subscribes a topic the socket already holds (unsubscribing what is not held is included). Whatever
+/// data structure holds the set, every reachable shape of it with up to 5 members is walked through.
+const DEEP_TOPICS: [&str; 5] = ["a", "ab", "b", "c", "abc"];
+fn deep_batch(prefix: &[u8], nt: u8, max_len: usize) -> Verdict {
+    fn legal(h: &[u8], nt: u8) -> bool {
+        let mut set = std::collections::BTreeSet::new();
+        for op in h {
+            if *op < nt {
+                if !set.insert(*op) {
+                    return false;
+                }
+            } else {
+                set.remove(&(*op - nt));
+            }
+        }
+        true
+    }
+    fn one(h: &[u8], nt: u8) -> Option<(String, String)> {
+        world::reset(world::WorldCfg { nested_env: false, yields: false, select: false, policy: 0, coop: false });
+        let early = e3::raw_conn("P0");
+        let late = e3::raw_conn("P1");
+        early.send(&rc::handshake("PUB", Some(b"PUB0")));
+        late.gate("api-done");
+        late.send(&rc::handshake("PUB", Some(b"PUB1")));
+        let sock = SubSocket::new();
+        let be = sock.backend();
+        let hist = h.to_vec();
+        world::spawn_app("app", async move {
+            let mut sock = sock;
+            let _ = e3::attach_raw(be.clone(), early).await;
+            for op in &hist {
+                let t = DEEP_TOPICS[(*op % nt) as usize];
+                let _ = if *op < nt { sock.subscribe(t).await } else { sock.unsubscribe(t).await };
+            }
+            world::set_cond("api-done");
+            let _ = e3::attach_raw(be, late).await;
+            world::set_cond("done");
+            world::wait_cond("never").await;
+            drop(sock);
+        });
+        let end = world::run(e3::HORIZON);
+        let names: Vec<String> = h.iter().map(|o| format!("{}({})", if *o < nt { "subscribe" } else { "unsubscribe" }, DEEP_TOPICS[(*o % nt) as usize])).collect();
+        let what = format!("SUB socket, calls {:?} one after the other, one peer attached before them and one joining afterwards", names);
+        if let Some(p) = world::panics().first() {
+            return Some(("deep/panic".into(), format!("{}: {}", what, p)));
+        }
+        if end != world::RunEnd::Quiescent || !world::cond("done") {
+            return Some(("deep/stuck".into(), format!("{}: the calls did not all return", what)));
+        }
+        let mut set: std::collections::BTreeSet<Vec<u8>> = Default::default();
+        for op in h {
+            let t = DEEP_TOPICS[(*op % nt) as usize].as_bytes().to_vec();
+            if *op < nt {
+                set.insert(t);
+            } else {
+                set.remove(&t);
+            }
+        }
+        for (name, c) in [("the peer attached before the calls", early), ("the peer that joined afterwards", late)] {
+            let folded = fold(&c.tap_messages());
+            let view: std::collections::BTreeSet<Vec<u8>> = folded.iter().filter(|(_, n)| **n > 0).map(|(t, _)| t.clone()).collect();
+            let doubled: Vec<String> = folded.iter().filter(|(_, n)| **n > 1).map(|(t, _)| String::from_utf8_lossy(t).to_string()).collect();
+            if view != set || !doubled.is_empty() {
+                let show = |s: &std::collections::BTreeSet<Vec<u8>>| s.iter().map(|t| String::from_utf8_lossy(t).to_string()).collect::<Vec<_>>();
+                return Some(("deep/peer-view-differs-from-socket".into(), format!("{}: {} holds {:?}{}, the calls leave the socket with {:?}", what, name, show(&view), if doubled.is_empty() { String::new() } else { format!(" (counted twice: {:?})", doubled) }, show(&set))));
+            }
+        }
+        None
+    }
+    let mut v = Verdict::default();
+    let mut n = 0u64;
+    let mut level: Vec<Vec<u8>> = vec![prefix.to_vec()];
+    'outer: while !level.is_empty() {
+        let mut next = Vec::new();
+        for h in &level {
+            if !legal(h, nt) {
+                continue;
+            }
+            n += 1;
+            if let Some((c, m)) = one(h, nt) {
+                v.violate(c, m);
+                break 'outer;
+            }
+            if h.len() < max_len {
+                for op in 0..2 * nt {
+                    let mut h2 = h.clone();
+                    h2.push(op);
+                    next.push(h2);
+                }
+            }
+        }
+        level = next;
+    }
+    DEEP_HISTORIES.fetch_add(n, std::sync::atomic::Ordering::Relaxed);
+    // the batch is one "execution" for the explorer; world state belongs to the last history run
+    world::reset(world::WorldCfg { nested_env: false, yields: false, select: false, policy: 0, coop: false });
+    v.outcome_hash = rc::fnv(format!("{:?}/{}/{}", prefix, nt, n).as_bytes());
+    e3::finish(v)
+}
+static DEEP_HISTORIES: std::sync::atomic::AtomicU64 = std::sync::atomic::AtomicU64::new(0);
 
 fn pj(p: &Params) -> Value {
     json!({"hist": p.hist, "peers": p.peers, "failing": p.failing, "api_first": p.api_first, "hash_key": p.hash_key, "policy": p.policy, "late_joiner": p.late_joiner, "calls_after_attach": p.calls_after_attach})
@@ -258,9 +370,15 @@ pub fn run(tier: Tier, replay: Option<String>) -> i32 {
     if let Some(path) = replay {
         let v: Value = serde_json::from_str(&std::fs::read_to_string(&path).expect("read")).expect("json");
         return crate::replay::replay_e3(&v, |p| {
+            if p["scenario"] == "deep" {
+                let prefix: Vec<u8> = p["prefix"].as_array()?.iter().map(|x| x.as_u64().unwrap_or(0) as u8).collect();
+                let (nt, ml) = (p["topics"].as_u64()? as u8, p["max_len"].as_u64()? as usize);
+                return Some(std::sync::Arc::new(move || deep_batch(&prefix, nt, ml)) as zvcore::explore::Scenario);
+            }
             if p["scenario"] == "scale" {
                 let (nt, np) = (p["topics"].as_u64()? as usize, p["peers"].as_u64()? as usize);
-                return Some(std::sync::Arc::new(move || scale_scenario(nt, np)) as zvcore::explore::Scenario);
+                let tl = p["topic_len"].as_u64().unwrap_or(0) as usize;
+                return Some(std::sync::Arc::new(move || scale_scenario(nt, np, tl)) as zvcore::explore::Scenario);
             }
             let pr = pf(p)?;
             Some(std::sync::Arc::new(move || scenario(&pr)) as zvcore::explore::Scenario)
@@ -318,16 +436,32 @@ pub fn run(tier: Tier, replay: Option<String>) -> i32 {
         }
     }
     for &(nt, np) in tier.pick(&[(9usize, 2usize), (40, 4), (17, 17), (70, 70), (300, 2)][..], &[(9usize, 2usize), (40, 4), (17, 17), (70, 70), (300, 2), (140, 140), (1100, 4)][..]) {
-        jobs.push(e3::job(format!("C13/scale/{}topics/{}peers", nt, np), json!({"scenario":"scale","topics":nt,"peers":np}), 0, 10, move || scale_scenario(nt, np)));
+        jobs.push(e3::job(format!("C13/scale/{}topics/{}peers", nt, np), json!({"scenario":"scale","topics":nt,"peers":np}), 0, 10, move || scale_scenario(nt, np, 0)));
+    }
+    // topic lengths around the size-form boundary of the subscription frame (1 + topic bytes) and far beyond it
+    for tl in tier.pick(&[253usize, 254, 255, 256, 300, 70_000][..], &[127usize, 128, 253, 254, 255, 256, 257, 300, 8191, 8192, 8193, 70_000, 1_100_000][..]) {
+        let (nt, np) = (5usize, 3usize);
+        let tl = *tl;
+        jobs.push(e3::job(format!("C13/scale/{}topics/{}peers/len{}", nt, np, tl), json!({"scenario":"scale","topics":nt,"peers":np,"topic_len":tl}), if tl <= 300 { 1 } else { 0 }, 2_000, move || scale_scenario(nt, np, tl)));
+    }
+    // deep sequential histories, in batches by their first two calls
+    for (nt, ml) in tier.pick(vec![(3u8, 7usize), (4, 6), (5, 5)], vec![(3u8, 9usize), (4, 8), (5, 7)]) {
+        for a in 0..2 * nt {
+            for b in 0..2 * nt {
+                let prefix = vec![a, b];
+                jobs.push(e3::job(format!("C13/deep/{}topics/len{}/{:?}", nt, ml, prefix), json!({"scenario":"deep","prefix":prefix,"topics":nt,"max_len":ml}), 0, 1, move || deep_batch(&[a, b], nt, ml)));
+            }
+        }
     }
     e3::run_jobs_into(&mut ck, jobs, false);
+    ck.cov("deep_sequential_histories", DEEP_HISTORIES.load(std::sync::atomic::Ordering::Relaxed));
     let ex = ck.coverage.get("e3_executions").and_then(|v| v.as_u64()).unwrap_or(0);
     ck.cov("states", ck.coverage.get("e3_distinct_outcomes").and_then(|v| v.as_u64()).unwrap_or(0).max(1));
     ck.cov("transitions", ex);
     ck.cov("traces_validated_against_impl", ex);
     ck.cov("call_histories", hists.len() as u64);
     ck.cov("exhaustive", ck.coverage.get("e3_scenarios_capped").and_then(|v| v.as_u64()) == Some(0));
-    ck.cov("explanation", format!("every history of subscribe/unsubscribe calls over topics a, ab, b (a proper-prefix pair and an unrelated topic) of length <= {} ({} histories, incl. repeats and never-subscribed topics) on a real SUB socket with 1-2 (thorough 3) raw PUB peers whose attach actors may run at ANY point — between two calls, inside peer_connected between the snapshot of the set and the registration, and inside subscribe between the set update and the fan-out (yield points) — every schedule within the deviation bound from 2 default policies and both spawn orders; plus, for histories of length <= 3, one peer whose connection starts failing writes at any point, for each position of the failing peer, with and without one more peer that joins only after every call has returned, and 2 (thorough 4) hash keys of the peer table (iteration order). Oracle at quiescence, from the reference-decoded wires folded into per-topic counts (RFC 29): all live peers agree on subscribed / not subscribed for every topic; for histories that never subscribe an already-subscribed topic every live peer's view equals the set implied by the calls; a failing peer does not stop the others from being updated; no panic. Scale family (not exhaustive in the counts): 9..300 (thorough 1100) topics of which every even one is unsubscribed again, 2..70 (140) peers of which half join only after every call has returned: every peer's view equals the set. states = distinct observed outcomes.", max_len, hists.len()));
+    ck.cov("explanation", format!("every history of subscribe/unsubscribe calls over topics a, ab, b (a proper-prefix pair and an unrelated topic) of length <= {} ({} histories, incl. repeats and never-subscribed topics) on a real SUB socket with 1-2 (thorough 3) raw PUB peers whose attach actors may run at ANY point — between two calls, inside peer_connected between the snapshot of the set and the registration, and inside subscribe between the set update and the fan-out (yield points) — every schedule within the deviation bound from 2 default policies and both spawn orders; plus, for histories of length <= 3, one peer whose connection starts failing writes at any point, for each position of the failing peer, with and without one more peer that joins only after every call has returned, and 2 (thorough 4) hash keys of the peer table (iteration order). Oracle at quiescence, from the reference-decoded wires folded into per-topic counts (RFC 29): all live peers agree on subscribed / not subscribed for every topic; for histories that never subscribe an already-subscribed topic every live peer's view equals the set implied by the calls; a failing peer does not stop the others from being updated; no panic. Scale family (not exhaustive in the counts): 9..300 (thorough 1100) topics of which every even one is unsubscribed again, 2..70 (140) peers of which half join only after every call has returned: every peer's view equals the set; the same with 5 topics of 253..256, 300 and 70000 (thorough: up to 1.1 M) bytes each (the subscription frame changes its size form at a 255-byte topic). Deep sequential family (no scheduling): EVERY history of calls over 3 / 4 / 5 topics (a, ab, b, c, abc) up to length 7 / 6 / 5 (thorough 9 / 8 / 7) that never subscribes a topic already held, with one peer attached before and one joining after the calls; both peers' views must equal the set the calls imply, nothing counted twice (coverage.deep_sequential_histories). states = distinct observed outcomes.", max_len, hists.len()));
     ck.assume("for double-subscribe histories only agreement among peers is demanded (set vs reference-count semantics of the socket is not fixed by the statement)");
     ck.conclude()
 }
